@@ -326,7 +326,7 @@ def run(ctx):
     ctx.assumptions += ["ids are deliberately reused across consecutive parses handled by one harness process, so state leaking between parses would surface as a disagreement",
                         "oracle restates the width rule independently of the Lean model"]
     return C.finish(ctx, level="proof", checker_cmd="lake build Rspirv.Props.C10 + #print axioms",
-                    rule="seeded histories over 5 reused ids: int/float declarations of widths {8,16,32,64,128,7,0,24,48,65,2^31}, value definitions chaining result types (OpUndef/OpCopyObject), non-numeric type declarations, and OpConstant/OpSpecConstant/OpSwitch consumers; distinct non-trivial = distinct expectation vectors",
+                    rule="seeded histories over 5 reused ids: int/float declarations of widths {8,16,32,64,128,7,0,24,48,65,2^31}, value definitions chaining result types (OpUndef/OpCopyObject), non-numeric type declarations, and OpConstant/OpSpecConstant/OpSwitch consumers; selectors/result types whose tracked type changes between consumers with no type declaration in between; 255..1100 (thorough 4097) pairwise distinct types and as many chained values before the consumers; distinct non-trivial = distinct expectation vectors",
                     trusted=["hand models Parser.lean (parse_literal, TypeTracker) + differential harness"])
 
 
